@@ -83,7 +83,7 @@ void run_case( vcase::Case const& c, size_t cap, bool has_front )
 {
     std::unique_ptr<Q> q( new Q( cap ));
     g_current = &c;
-    g_deadline_ms.store( now_ms() + 2000 );
+    g_deadline_ms.store( now_ms() + 30000 );   // generous: only a genuinely spinning run reaches it, even on a loaded machine
     vcase::run_workers( c, [&]( int t ) {
         for ( auto const& op : c.threads[t] ) {
             switch ( op[0] ) {
